@@ -30,6 +30,10 @@ SCENARIOS = [
     dict(name="C08.c no handler", entry="VerifC08c_NoHandler", K=60, reach=["quiescent"], overrides=STD, native=False, bounds="error without handler",
          expect_obligations=["no handler or skip: the token continues after the error trace"]),
     dict(name="C08.b declared-only storage", entry="VerifC08b_DeclaredOnly", K=20, reach=["built"], sequential=True, max_instr=3000000,
-         bounds="3 names x declared/undeclared x supplied/not supplied (all 64 combinations), results extension present/absent, 64-bit symbolic values",
+         bounds="3 names x declared/undeclared (declared type integer, string or none) x supplied/not supplied, results extension present/absent, 64-bit symbolic values",
          expect_obligations=["exactly the declared and supplied result fields are stored", "exactly the declared and supplied data outputs are stored"]),
+    dict(name="C08.d results and data outputs in one answer", entry="VerifC08d_ResultsAndObjects", K=80, reach=["quiescent"], overrides=STD, native=False,
+         bounds="a successful answer carrying a data output and/or a result field (all 4 combinations), 64-bit symbolic value; stand-in task node, real flow loop and locator",
+         expect_obligations=["a declared result field of the answer is stored as a variable (and nothing else is)",
+                             "a declared data output of the answer is stored as a data object (and nothing else is)"]),
 ]
